@@ -95,6 +95,38 @@ def unit_get_as_int(eng, bitness, unsigned, default):
     return r
 
 
+def unit_get_cyclic(eng, which, flag):
+    """the argument's value depends on itself (wait() raises DeferredCycle): get_as_int / get_as_str report recursive-definition at the
+    argument and refuse the statement (RecoverableError) - unless the caller asked for the exception (cycle_is_reported=False: '.link')"""
+    name = "%s[cyclic-argument,cycle_is_reported=%s]" % (which, flag)
+
+    def run(eng):
+        use_callee_contracts(eng, "wait")
+        f = find_func(eng, "metacommand_impl", [which])
+        tok = value_token(eng, 0, "arg")
+
+        def cyclic_resolve(e, state):
+            raise PyRaise(Exc("DeferredCycle"))
+        tok.attrs["resolve"] = Builtin("resolve", cyclic_resolve)
+        eng.I = {}
+        if which == "get_as_int":
+            return eng.call(f, [Obj("State", name="state"), "what", value_token(eng, None, "token"), tok, 16, False], {} if flag is None else {"cycle_is_reported": flag})
+        return eng.call(f, [Obj("State", name="state"), "what", value_token(eng, None, "token"), tok], {})
+
+    def post(eng, outcome):
+        kind, val = outcome
+        errs = [e[1] for e in errors(eng)]
+        if flag is False:
+            eng.prove("the-cycle-is-handed-to-the-caller-unreported", kind == "raise" and val.cls == "DeferredCycle" and errs == [])
+        else:
+            eng.prove("a-value-that-depends-on-itself-is-reported-as-recursive-definition-and-the-statement-refused(no internal exception)",
+                      kind == "raise" and val.cls == "RecoverableError" and errs == ["recursive-definition"])
+    r = verify(eng, name, run, post, func="metacommand_impl.%s" % which)
+    for o in r["obligations"]:
+        o["cfg"] = dict(kind="selfref", src="x = x / 2\n.word x\n" if which == "get_as_int" else "x = x\n.ascii x\n")
+    return r
+
+
 # ------------------------------------------------------------------ directives through Metacommand.compile_insn
 def decorator_kw(eng, modname, fname):
     """keyword arguments of the @metacommand decorator of a directive, evaluated from the real AST"""
@@ -646,6 +678,8 @@ def units(tier):
         for uns in [False, True]:
             for d in [None, 0]:
                 us.append(("get_as_int[%s,%s,%s]" % (bit, uns, d), "unit_get_as_int", dict(bitness=bit, unsigned=uns, default=d)))
+    for which, flag in (("get_as_int", None), ("get_as_int", False), ("get_as_str", None)):
+        us.append(("%s[cyclic,%s]" % (which, flag), "unit_get_cyclic", dict(which=which, flag=flag)))
     for cmd in WIDTH:
         for n in range(0, NMAX + 1):
             us.append(("%s[%d]" % (cmd, n), "unit_data", dict(cmd=cmd, n=n)))
